@@ -33,19 +33,24 @@ GOLIBS = "github.com/AdguardTeam/golibs"
 # Per-check configuration.  runs: simulated runs per tier; race: build with
 # the race detector; bubble: concurrent check (GOMAXPROCS=1 per worker).
 CHECKS = {
-    "C08": dict(pkg="./sim/c08", race=False, quick=600000, thorough=12000000),
-    "C09": dict(pkg="./sim/c09", race=False, quick=2000000, thorough=40000000, checkptr=True, aslimit=True),
-    "C10": dict(pkg="./sim/c10", race=True, quick=120000, thorough=2400000),
-    "C11": dict(pkg="./sim/c11", race=False, quick=1500000, thorough=30000000),
-    "C15": dict(pkg="./sim/c15", race=False, quick=2000000, thorough=40000000),
-    "C17": dict(pkg="./sim/c17", race=True, quick=120000, thorough=2400000,
+    "C08": dict(pkg="./sim/c08", race=False, quick=600000, thorough=30000000),
+    "C09": dict(pkg="./sim/c09", race=False, quick=2000000, thorough=200000000, checkptr=True, aslimit=True),
+    "C10": dict(pkg="./sim/c10", race=True, quick=120000, thorough=6000000),
+    "C11": dict(pkg="./sim/c11", race=False, quick=1500000, thorough=150000000),
+    "C15": dict(pkg="./sim/c15", race=False, quick=2000000, thorough=200000000),
+    "C17": dict(pkg="./sim/c17", race=True, quick=120000, thorough=6000000,
                 autoyield=dict(call="simPoint(%q)", files=["syncutil/sema.go", "syncutil/onceconstructor.go"])),
-    "C18": dict(pkg="./sim/c18", race=True, quick=200000, thorough=4000000),
-    "C19": dict(pkg="./sim/c19", race=True, quick=60000, thorough=1200000),
-    "C20": dict(pkg="./sim/c20", race=True, quick=40000, thorough=800000),
+    "C18": dict(pkg="./sim/c18", race=True, quick=200000, thorough=8000000,
+                autoyield=dict(call="simPoint(%q)", simfile="service:service",
+                               files=["service/signal.go", "service/refreshworker.go"])),
+    "C19": dict(pkg="./sim/c19", race=True, quick=60000, thorough=2400000),
+    "C20": dict(pkg="./sim/c20", race=True, quick=40000, thorough=1200000,
+                autoyield=dict(call="simPoint(%q)", simfile="netutil/httputil:httputil",
+                               files=["netutil/httputil/logmw.go", "netutil/httputil/httputil.go",
+                                      "netutil/httputil/responsewriter.go"])),
 }
 
-WALL_CAP = {"quick": 150, "thorough": 3000}
+WALL_CAP = {"quick": 150, "thorough": 3300}
 
 
 def log(*a):
@@ -72,7 +77,8 @@ def go_env():
 
 def build(check_id, cfg, repo, tmp):
     """Builds the test binary for the check from repo's working tree."""
-    args = [go_bin(), "test", "-c", "-tags", "verif", "-o", os.path.join(tmp, check_id + ".test")]
+    tags = "verif,autoyield" if cfg.get("autoyield") else "verif"
+    args = [go_bin(), "test", "-c", "-tags", tags, "-o", os.path.join(tmp, check_id + ".test")]
     if cfg.get("race"):
         args.append("-race")
     if cfg.get("checkptr"):
@@ -98,8 +104,12 @@ def build(check_id, cfg, repo, tmp):
         # compiled instead of the originals through a build overlay.
         ay = cfg["autoyield"]
         files = [os.path.join(repo, f) for f in ay["files"]]
+        opts = ["-out", tmp, "-call", ay["call"]]
+        if ay.get("simfile"):
+            d, pkg = ay["simfile"].split(":")
+            opts += ["-simfile", os.path.join(repo, d) + ":" + pkg]
         p = subprocess.run(
-            [go_bin(), "run", "-modfile=" + modfile, "./tools/autoyield", "-out", tmp, "-call", ay["call"]] + files,
+            [go_bin(), "run", "-modfile=" + modfile, "./tools/autoyield"] + opts + files,
             cwd=VERIF, env=go_env(), stdout=subprocess.PIPE, stderr=subprocess.PIPE, text=True)
         if p.returncode != 0:
             log("HARNESS-ERROR: autoyield failed:\n" + p.stderr[-3000:])
@@ -118,7 +128,8 @@ def build(check_id, cfg, repo, tmp):
 
 
 def load_known(check_id):
-    path = os.path.join(VERIF, "known_findings.json")
+    # VERIF_KNOWN_FILE exists for the self-test of this mechanism only.
+    path = os.environ.get("VERIF_KNOWN_FILE") or os.path.join(VERIF, "known_findings.json")
     if not os.path.exists(path):
         return []
     with open(path) as f:
@@ -206,7 +217,7 @@ def run_single(binary, cfg, tmp, name, seed, run, tier, known_sigs):
     extra = dict(
         VERIF_MODE="explore", VERIF_SEED=str(seed), VERIF_FROM=str(run), VERIF_TO=str(run + 1),
         VERIF_STRIDE="1", VERIF_TIER=tier, VERIF_RECHECK="0", VERIF_KNOWN="\n".join(known_sigs),
-        VERIF_WATCHDOG_S="30",
+        VERIF_WATCHDOG_S="12",
     )
     for suffix in (".json", ".json.hang"):
         try:
@@ -241,6 +252,10 @@ def confirm_replay(binary, cfg, tmp, path, tier, want_class, want_site):
         died = res is None
         return died, died, "process exit %d" % rc
     attempts = 5 if want_class == "race" else 2
+    if rf.get("nondeterministic"):
+        # The run contains a select with two ready cases, constructed on
+        # purpose: the Go runtime picks one at random.
+        attempts = 12
     detail = ""
     for i in range(attempts):
         res, rc, err = replay_once(binary, cfg, tmp, "confirm", path, tier)
@@ -378,6 +393,7 @@ def drive(args, check_id, cfg, tier, seed, repo, tmp, t_start):
     results = []
     harness_errors = []
     violations = []  # (signature, violation dict, replay path)
+    confirmed_deaths = 0
     for w in launched:
         name = "w%d" % w
         res = read_result(tmp, name)
@@ -391,6 +407,11 @@ def drive(args, check_id, cfg, tier, seed, repo, tmp, t_start):
                 harness_errors.append("worker %d died (exit %d) without progress: %s" % (w, rcs[w], err[-3000:]))
                 continue
             cseed, crun = int(m.group(1)), int(m.group(2))
+            if confirmed_deaths >= 2:
+                # Enough dead workers have been confirmed as crashes or hangs
+                # of the code under test; the others are not re-run one by one.
+                log("worker %d died (exit %d) during seed=%d run=%d (not re-run)" % (w, rcs[w], cseed, crun))
+                continue
             log("worker %d died (exit %d) during seed=%d run=%d; re-running that run in a fresh process" % (
                 w, rcs[w], cseed, crun))
             res2, rc2, err2 = run_single(binary, cfg, tmp, "crash%d" % w, cseed, crun, tier, known_sigs)
@@ -419,6 +440,7 @@ def drive(args, check_id, cfg, tier, seed, repo, tmp, t_start):
                 json.dump(dict(property=check_id, mode="seed", seed=cseed, run=crun, **{
                     "class": klass, "site": site, "message": text[-6000:],
                 }), f, indent=1)
+            confirmed_deaths += 1
             results.append(dict(violation={"class": klass, "site": site, "message": text[-3000:]}, replay=rpath,
                                 runs=0, steps=0, stats=dict(faults={}, probes={}), known_hits={}))
             continue
@@ -447,14 +469,18 @@ def drive(args, check_id, cfg, tier, seed, repo, tmp, t_start):
             violations.append((v["class"] + "@" + v["site"], v, r.get("replay")))
     sigs = set()
     capped = False
+    union_cap = 4_000_000  # bounds the driver's memory; the count is then a lower bound
     for w in launched:
         p = os.path.join(tmp, "w%d.sigs" % w)
         if os.path.exists(p):
+            if len(sigs) >= union_cap:
+                capped = True
+                continue
             a = array.array("Q")
             with open(p, "rb") as f:
                 a.frombytes(f.read())
             sigs.update(a)
-    capped = any(r.get("sig_capped") for r in results)
+    capped = capped or any(r.get("sig_capped") for r in results)
     samples = []
     for r in results:
         for s in r.get("samples") or []:
@@ -467,7 +493,7 @@ def drive(args, check_id, cfg, tier, seed, repo, tmp, t_start):
     cov = dict(
         evaluations=runs,
         distinct_nontrivial=len(sigs),
-        rule=meta["rule"] + (" (distinct count capped per worker)" if capped else ""),
+        rule=meta["rule"] + (" (the distinct count is a lower bound: signature sets are capped per worker and in the driver)" if capped else ""),
         samples=samples or ["(no sample recorded)"],
         nontrivial_runs=nontrivial,
         steps_total=steps,
